@@ -35,9 +35,9 @@ func wellFormedRecord(r *rand.Rand) []byte {
 		}
 	}
 	g.fields = clean
-	fields := fullFields(r, g, r.Intn(2) == 0)
+	fields := fullFieldsOdd(r, g, r.Intn(2) == 0, false)
 	if g.rt == 32 { // the block of a revisit is an http header; declare a truthful digest only
-		fields = fullFields(r, g, false)
+		fields = fullFieldsOdd(r, g, false, false)
 	}
 	return serializeRecord(pick(r, []string{"1.1", "1.0"}), fields, g.body, "\r\n")
 }
